@@ -65,6 +65,13 @@ def behaviours(pts, rng):
                 else:
                     lines.append("params 15 %d %d 8 %d 0 0 rnd 0" % (ek, er, 8 if c == 2 else 0))
                 lines.append("release 15")
+            if role == "enc" and rng.random() < 0.15:
+                # an encoder instance that was configured for another block size before (an application re-using its
+                # encoder for a shorter last block): same N1 and seed, or another seed -- the equations of the session
+                # are those of its current configuration
+                k2 = max(1, k + rng.choice([-4, -3, -1, 1, 2, 5]))
+                lines.append("params %d %d %d %d 0 %d %d rnd 0" % (s, k2, r, max(1, rng.choice([1, 4, 16])), n1,
+                                                                   seed if rng.random() < 0.7 else rng.randrange(1, 2 ** 31 - 1)))
             lines.append("params %d %d %d %d 0 %d %d rnd 0" % (s, k, r, max(1, rng.choice([1, 4, 16])), n1, seed))
         for (s, role, k, r, n1, seed) in order:
             lines.append("release %d" % s)
